@@ -13,7 +13,8 @@ THEOREMS = [("Sylvia.Thm.C13", "C13." + t) for t in
             ("Sylvia.Thm.Obl.T.msg_is_framework", "Obl.msg_is_framework")]
 
 FOREIGN_ITEM = ["allow(dead_code)", "cfg(all())", 'doc = " Contract docs, with `code`."', "rustfmt::skip",
-                "allow(clippy::too_many_arguments)", "cfg_attr(all(), allow(unused))", "svx::msg(exec)", "sv::unknown_thing(1)"]
+                "allow(clippy::too_many_arguments)", "cfg_attr(all(), allow(unused))", "svx::msg(exec)", "sv::unknown_thing(1)",
+                "allow(clippy::new_without_default, unused_variables)", "allow(unused_mut, clippy::new_without_default)"]
 FOREIGN_METHOD = ["inline", "must_use", 'doc = " does a thing"', "allow(unused_variables)", "cfg(all())", "track_caller",
                   "rustfmt::skip", "deprecated"]
 PARAM_HANDLER = ["serde(default)", 'serde(rename = "x")', "cfg(all())", "allow(unused)"]
@@ -77,12 +78,15 @@ def gen_item(rng, idx):
         for a in FOREIGN_METHOD:
             if rng.random() < 0.2:
                 mattrs.insert(rng.randrange(len(mattrs) + 1), a)
-        params = [{"attrs": [], "text": "&self"}]
-        ptxt = ["&self"]
+        # the receiver and the context parameter may carry attributes too (on a handler they are removed like all the others)
+        sattrs = [a for a in ["cfg(all())", "allow(unused)"] if rng.random() < 0.1]
+        params = [{"attrs": [attr(a) for a in sattrs], "text": "&self"}]
+        ptxt = ["".join("#[%s] " % a for a in sattrs) + "&self"]
         if handler:
             ctx = gen.CTX[kind]
-            params.append({"attrs": [], "text": "ctx:" + ctx})
-            ptxt.append("ctx: " + ctx)
+            cattrs = [a for a in ["allow(unused_variables)", "cfg(all())", 'doc = " the context"'] if rng.random() < 0.12]
+            params.append({"attrs": [attr(a) for a in cattrs], "text": "ctx:" + ctx})
+            ptxt.append("".join("#[%s] " % a for a in cattrs) + "ctx: " + ctx)
         for pi in range(rng.randint(0, 3)):
             pool = PARAM_HANDLER if handler else PARAM_HELPER
             pas = [a for a in pool if rng.random() < 0.3]
@@ -132,7 +136,7 @@ def observed_strip(first):
     for it in first["items"]:
         if it["k"] == "fn":
             ms.append({"name": it["name"], "attrs": it["attrs"],
-                       "params": [{"text": (p["ty"] if p["name"] == "self" else p["name"] + ":" + p["ty"]), "attrs": p["attrs"]} for p in it["inputs"]]})
+                       "params": [{"text": (re.sub(r"^(#\[[^\]]*\])+", "", p["ty"]) if p["name"] == "self" else p["name"] + ":" + p["ty"]), "attrs": p["attrs"]} for p in it["inputs"]]})
     return {"attrs": attrs, "methods": ms}
 
 
